@@ -55,6 +55,8 @@ open GqlVerif
 #print axioms GqlVerif.C02Gen.resolve_queryWf
 #print axioms GqlVerif.C02Gen.varsGenOk_of_doc
 #print axioms GqlVerif.C02Gen.w_default_null
+#print axioms GqlVerif.C02Gen.w_default_null_nested
+#print axioms GqlVerif.C02Gen.w_default_var
 #print axioms GqlVerif.C02Gen.w_oneof_nonnull
 #print axioms GqlVerif.C02All.supported_input_accepted_and_scoped
 #print axioms GqlVerif.C02Frontends.schemaWf_toSchema
